@@ -86,31 +86,21 @@ Definition c08_step_ok (cur floor : N) (st : c08_step) : bool :=
      | None, _ => true
      end.
 
-(* a range read in two steps. The check: below the floor it must end refused; passing it below the floor is a
-   violation. The scan: see c08_step_verdict *)
+(* a range read in two steps, the check of the record and the scan (which ends with a second check): whichever step
+   answers, below the floor of that moment it must be the refusal; passing the check below the floor is a violation *)
 Definition read_check_ok (floor : N) (st : c08_step) : bool :=
   match s8_op st, s8_obs st with
   | CReadCheck _ rev, ORead res => if rev <? floor then rres_eqb res RErr else true
   | CReadCheck _ rev, OWrite => negb (rev <? floor)
   | CReadCheck _ _, _ => false
-  | CReadScan _ _, ORead _ => true
+  | CReadScan _ rev, ORead res => if rev <? floor then rres_eqb res RErr else true
   | CReadScan _ _, _ => false
   | _, _ => true
   end.
 
-(* the signature of finding C08-F2: the scan of a read that passed its check answers with data although the floor
-   has been raised above the read's revision in the meantime (its iterators are opened after the check) *)
-Definition f2_signature (floor : N) (st : c08_step) : bool :=
-  match s8_op st, s8_obs st with
-  | CReadScan _ rev, ORead RData => rev <? floor
-  | _, _ => false
-  end.
-
-(* verdict of one step: None fine, Some 0 = violation, Some 2 = the signature of C08-F2 *)
+(* verdict of one step: None fine, Some 0 = violation *)
 Definition c08_step_verdict (cur floor : N) (st : c08_step) : option N :=
-  if c08_step_ok cur floor st && read_check_ok floor st
-  then (if f2_signature floor st then Some 2 else None)
-  else Some 0.
+  if c08_step_ok cur floor st && read_check_ok floor st then None else Some 0.
 
 Definition worse8 (a b : option N) : option N :=
   match a, b with
